@@ -877,3 +877,92 @@ func Handover(r *gen.R, way bool, regime Regime, variant int) *H {
 	}
 	return h
 }
+
+// WindowShape returns the enumerated forward-grouping family (timestamp regime): a parent
+// version at T with changeset P, one child with v1 long before, optionally one version inside
+// the window before T (beforeOff > 0: that many steps before T), and one version per letter
+// of pattern after T inside the threshold, 'O' in the parent's own changeset, 'F' in a
+// foreign one, step ticks apart; a second parent version follows much later. All visible.
+func WindowShape(way bool, eps int64, pattern string, beforeOff int, nIdx int) *H {
+	h := &H{Way: way, Regime: Stamp, Eps: eps}
+	T := int64(1250000000)
+	step := eps / int64(len(pattern)+2)
+	if step < 1 {
+		step = 1
+	}
+	ch := Child{Type: osm.TypeNode, Ref: 11}
+	ver := 1
+	add := func(sec, cs int64) {
+		ch.Vers = append(ch.Vers, Ver{Version: ver, Visible: true, Sec: sec, CS: cs, Lat: 1 + float64(ver)/1000, Lon: -1 - float64(ver)/1000})
+		ver++
+	}
+	add(T-50000-3*eps, 40)
+	if beforeOff > 0 {
+		add(T-int64(beforeOff)*step, 41)
+	}
+	for k, l := range pattern {
+		cs := int64(70 + k) // foreign
+		if l == 'O' {
+			cs = 55
+		}
+		add(T+int64(k+1)*step, cs)
+	}
+	add(T+200000, 90) // an ordinary later edit
+	h.Children = []Child{ch}
+	p1 := PVer{Version: 1, Visible: true, Sec: T, CS: 55}
+	p2 := PVer{Version: 2, Visible: true, Sec: T + 400000 + 3*eps, CS: 56}
+	for j := 0; j < nIdx; j++ {
+		p1.Refs = append(p1.Refs, Ref{Child: 0})
+		p2.Refs = append(p2.Refs, Ref{Child: 0})
+	}
+	h.Parents = []PVer{p1, p2}
+	return h
+}
+
+// MakeSpan turns a commit-regime history into one that crosses osm.CommitInfoStart: a cut is
+// drawn among all parent and child version instants (every position is possible, including
+// before the first and after the last); everything before the cut loses its commit time and
+// is moved 2*eps+10 s further back (so that no element without commit time lies within a
+// threshold of the boundary), and the whole history is shifted so that the cut falls on
+// osm.CommitInfoStart. The regime thereby becomes a property of each version.
+func MakeSpan(h *H, r *gen.R) {
+	if h.Regime != Commit || h.Mixed {
+		return
+	}
+	var ts []int64
+	for _, p := range h.Parents {
+		ts = append(ts, p.Sec)
+	}
+	for _, c := range h.Children {
+		for _, v := range c.Vers {
+			ts = append(ts, v.Sec)
+		}
+	}
+	sort.Slice(ts, func(a, b int) bool { return ts[a] < ts[b] })
+	cut := ts[r.Intn(len(ts))]
+	if r.Chance(0.1) {
+		cut = ts[len(ts)-1] + 1 // nothing carries commit times
+	}
+	tps := h.TPS()
+	cis := h.Tick(osm.CommitInfoStart)
+	gap := (2*h.Eps + 10) * tps
+	if h.EpsDefault {
+		gap = (2*1800 + 10) * tps
+	}
+	mv := func(s int64) int64 {
+		s += cis - cut
+		if s < cis {
+			s -= gap
+		}
+		return s
+	}
+	for i := range h.Parents {
+		h.Parents[i].Sec = mv(h.Parents[i].Sec)
+	}
+	for c := range h.Children {
+		for k := range h.Children[c].Vers {
+			h.Children[c].Vers[k].Sec = mv(h.Children[c].Vers[k].Sec)
+		}
+	}
+	h.Span, h.MixSec = true, cis
+}
